@@ -112,6 +112,8 @@ FORMATS = [
     (["%j", " ", "%d", " ", "%j"], False),
     (["%OY", " ", "%Om", " ", "%Od", " ", "%Oc"], False),
     (["%F", " ", "%db"], False),
+    (["%b", " ", "%d", " ", "%Y"], True),
+    (["%B", " ", "%-d", ", ", "%Y", " (", "%a", ")"], True),
 ]
 _G = {}
 
